@@ -39,6 +39,7 @@ Bases == {
   Mk2("a", S("$required"), "l", L(<<I("1"), S("$required"), I("2")>>)),
   Mk2("l", L(<<E1, E2, E3>>), "m", EmptyMap),
   Mk2("l", L(<<E1, I("1"), L(<<I("1")>>), Single("$merge", S("a"))>>), "a", F("1.5")),
+  Mk2("l", L(<<Mk2("$merge", S("a"), "a", I("1")), Mk2("$replace", S("a"), "b", S("x")), Mk2("$encode", S("json"), "a", I("1")), E3>>), "a", I("1")),
   L(<<E1, E2, S("x")>>),
   EmptyMap,
   I("1"),
